@@ -69,7 +69,7 @@ func vfRunC07(c vfC07Case) *kit.Result {
 		}
 	}
 	// the same stream through a MotionProcessor: MotionDetected callbacks must agree
-	cam := vfCam{c.Cfg.W, c.Cfg.H, 9}
+	cam := vfCam{c.Cfg.W, c.Cfg.H, c.Cfg.fps()}
 	tr := &vfTrace{motion: map[int]bool{}}
 	w, _ := window.New("10:00", "10:00", 0, 0)
 	rc := &recorder.RecorderConfig{MinSecs: 0, MaxSecs: 0, PreviewSecs: 0, Window: *w}
